@@ -610,7 +610,7 @@ func runC15(c *lib.Ctx) {
 	}
 	avoid := func(prefix string) bool { return c.Findings.Listed("C15", prefix) }
 	sweep := c15SweepCases(c.Thorough())
-	comp := c15CompositeCases(c.Rng, c.Scale(6000, 150000), avoid)
+	comp := c15CompositeCases(c.Rng, c.Scale(8000, 1200000), avoid)
 	cases := append(append([]fCase{}, sweep...), comp...)
 
 	var reqs []string
@@ -644,6 +644,8 @@ func runC15(c *lib.Ctx) {
 	cells := map[string]*cellAcc{}
 	var cellOrder []string
 	var triage strings.Builder
+	var compSigs []string
+	var compRecs []map[string]any
 	agree, modelRejected := 0, 0
 	for i, cs := range cases {
 		impl := results[i]
@@ -691,7 +693,8 @@ func runC15(c *lib.Ctx) {
 		if !cs.Sweep {
 			// composite cases are never excused
 			fmt.Fprintf(&triage, "COMPOSITE %s aspect=%s\n    observed %v\n    expected %v\n", cs.lisp(), aspect, rec["observed"], rec["expected"])
-			c.Report(fmt.Sprintf("composite ctrl=%q aspect=%s", c15Shape(cs.Ctrl), aspect), false, rec)
+			compSigs = append(compSigs, fmt.Sprintf("composite ctrl=%q aspect=%s", c15Shape(cs.Ctrl), aspect))
+			compRecs = append(compRecs, rec)
 			continue
 		}
 		acc := cells[cs.Cell]
@@ -724,6 +727,10 @@ func runC15(c *lib.Ctx) {
 	}
 	if c.GenBroken != "" {
 		c15GenWitness(c)
+	}
+	// composite disagreements after the sweep cells (the cells carry the more telling signatures)
+	for i := range compSigs {
+		c.Report(compSigs[i], false, compRecs[i])
 	}
 	c.Ev.Coverage["traces_validated_against_impl"] = len(cases)
 	c.Ev.Coverage["agreements"] = agree
